@@ -70,6 +70,11 @@ class Ctx:
         if not events:
             return []
         _check_ints(events)
+        dump_dir = os.environ.get("VERIF_SELFTEST_DIR")
+        if dump_dir:       # bin/selftest: keep the recorded trace so that it can be corrupted and re-validated
+            os.makedirs(dump_dir, exist_ok=True)
+            with open(os.path.join(dump_dir, "%s-%s-%d.json" % (self.pid, spec, len(self.models))), "w") as f:
+                json.dump({"pid": self.pid, "spec": spec, "cfg": cfg, "events": events}, f)
         fd, path = tempfile.mkstemp(prefix="verif-trace-", suffix=".ndjson")
         try:
             with os.fdopen(fd, "w") as f:
